@@ -7,11 +7,18 @@
 (* Go harness executes the path on the real engine and compares.            *)
 EXTENDS Store, Json, SequencesExt
 
-CONSTANTS MaxStmts, MaxRows, MaxFlush, MaxCrash, EmitOn, BadVals,
+CONSTANTS MaxStmts, MaxRows, MaxFlush, MaxCrash, EmitOn,
+          BadMode,     \* which invalid rows INSERT/UPDATE may carry: "none", "type-size", "count-range", "all"
           DmlTables,   \* tables that INSERT/UPDATE/DELETE address (a subset of Tables, to focus a configuration)
           Ops          \* statement kinds explored: subset of {"create", "insert", "update", "delete"}
 
 VARIABLES cnt, hist
+
+\* (TLC's configuration files cannot spell negative numbers, hence the mode names)
+BadVals == CASE BadMode = "none" -> {}
+             [] BadMode = "type-size" -> {-1, -2}
+             [] BadMode = "count-range" -> {-3, -4}
+             [] BadMode = "all" -> {-1, -2, -3, -4}
 mcVars == <<disk, dhdr, cache, mhdr, walD, torn, walU, pc, abs, pend, cands, taint, scope, out, cnt, hist>>
 
 RowSeqs == UNION {[1..n -> Vals \cup BadVals] : n \in 1..MaxRows}
